@@ -485,8 +485,12 @@ nni_dialer_start_aio(nni_dialer *d, unsigned flags, nni_aio *aiop)
 		return (NNG_ESTATE);
 	}
 
-	if (aiop != NULL) {
-		nni_aio_start(aiop, NULL, NULL);
+	if ((aiop != NULL) && (!nni_aio_start(aiop, NULL, NULL))) {
+		// The aio was refused (stopped, aborted, or zero timeout) and
+		// has already been completed with that result; it must not
+		// be completed a second time when the dial finishes.
+		nni_atomic_flag_reset(&d->d_started);
+		return (0);
 	}
 
 	// Note that flags is currently unused, since the only flag is
